@@ -161,19 +161,27 @@ def explore(
     max_runs: int | None = None,
     use_states: bool = False,
     first_prefixes: list[list[int]] | None = None,
+    violation_budget: int | None = None,
 ) -> dict:
     """Deviation-bounded DFS by re-execution (guidance idiom).
 
     ``run(ctx)`` executes the harness once under ctx.prefix (default choice 0 afterwards) and returns an
     observation; ``check(ctx, obs)`` is the oracle for that one execution. Returns statistics.
+    ``violation_budget``: once check() has returned True (a violation was recorded) at most that many further executions are
+    run (a broken library can make every execution long and the tree huge; the violation is already in hand). Never set by
+    harnesses whose subject has known findings.
     """
     stats = {"runs": 0, "points": 0, "pruned": 0, "cap_hit": False, "max_depth": 0, "states": 0}
     seen: dict | None = {} if use_states else None
     stack: list[list[int]] = list(reversed(first_prefixes)) if first_prefixes else [[]]
+    stop_at: int | None = None
     while stack:
         prefix = stack.pop()
         if max_runs is not None and stats["runs"] >= max_runs:
             stats["cap_hit"] = True
+            break
+        if stop_at is not None and stats["runs"] >= stop_at:
+            stats["stopped_after_violation"] = True
             break
         ctx = Ctx(prefix, seen, bound)
         try:
@@ -189,7 +197,8 @@ def explore(
         stats["points"] += len(ctx.choices) - len(prefix) + (1 if prefix else 0)
         stats["max_depth"] = max(stats["max_depth"], len(ctx.choices))
         if not pruned:
-            check(ctx, obs)
+            if check(ctx, obs) is True and violation_budget is not None and stop_at is None:
+                stop_at = stats["runs"] + violation_budget
         # expand alternatives at points after the prefix (those before were expanded by the parent)
         cost = 0
         for i, c in enumerate(ctx.choices):
